@@ -134,6 +134,13 @@ func gen(r *hx.Rand, n int, tier string, emit func(string), st *hx.Stats) {
 				}
 			}
 			steps = append(steps, step{rq, ctxT})
+			if len(m.Conds) > 0 && c.Chance(1, 3) {
+				// the same request with another request context: sub-problems cached for one context
+				// must not answer the other
+				rq2 := rq
+				rq2.Ctx = fga.GenReqCtx(c, m)
+				steps = append(steps, step{rq2, ctxT})
+			}
 		}
 		emit(encode(m, ts, tuples, steps))
 		st.Inc("sequences")
